@@ -320,7 +320,12 @@ inline Value entry_to_value(const nop::Entry<T, Id, nop::ActiveEntry>& e) { Valu
 template <typename T, std::uint64_t Id>
 inline Value entry_to_value(const nop::Entry<T, Id, nop::DeletedEntry>&) { return Value(); }
 template <typename T, std::uint64_t Id>
-inline void entry_from_value(const Value& v, nop::Entry<T, Id, nop::ActiveEntry>& e) { if (!v.tag) { e.clear(); return; } T t{}; MetaOf<T>::from_value(v.kids[0], t); e = std::move(t); }
+inline void entry_from_value(const Value& v, nop::Entry<T, Id, nop::ActiveEntry>& e) { if (!v.tag) { e.clear(); return; }
+  // engage the entry in place: for T = Optional<U> the assignment `e = t` is the CONVERTING assignment and an empty
+  // t would leave the entry itself empty (an engaged entry holding an empty optional is a different value)
+  static_cast<nop::Optional<T>&>(e) = nop::Optional<T>{nop::InPlace{}};
+  MetaOf<T>::from_value(v.kids[0], e.get());
+}
 template <typename T, std::uint64_t Id>
 inline void entry_from_value(const Value&, nop::Entry<T, Id, nop::DeletedEntry>&) {}
 template <typename T, std::uint64_t Id, typename Kind>
